@@ -22,3 +22,25 @@ Print Assumptions C19_reversal_sound_under_precondition.
 Theorem C19_cut_lines_refuted : exists ops, lrun (linit [0%N; 1%N; 2%N]) ops = LErr LStaleLast.
 Proof. exact cut_then_reverse_is_unsound. Qed.
 Print Assumptions C19_cut_lines_refuted.
+
+(* The recorded defect at the level of the links (Model/LinePtrModel.v, the statement-by-statement transcription of reverseSlots):
+   ten slots (1 and 9 are marks), cut before slot 4; justifying the second line with pLast = its first slot makes Segment::justify install
+   m_first = slot 4, m_last = slot 3 — a last slot that is not on the chain headed by m_first — and positionSlots reverses twice.  The
+   events below are the ones the engine recorded (Padauk.ttf, direction flags 2, the replay of finding F16); the model reproduces every
+   link of the engine's result: the first line has swallowed the second in reverse, the second is a single slot. *)
+From GR Require Import Model.LinePtrModel.
+From Coq Require Import List.
+Import ListNotations.
+Fixpoint chain_from (fuel : nat) (nx : list ptr) (p : ptr) : list nat :=
+  match fuel, p with S f, Some i => i :: chain_from f nx (getp nx i) | _, _ => [] end.
+Fixpoint prun (marks : list bool) (s : pstate) (os : list pop) : pres :=
+  match os with [] => POk s | o :: r => match papply marks s o with POk s' => prun marks s' r | e => e end end.
+Example C19_links_of_the_recorded_defect :
+  let n := 10%nat in
+  let s0 := mkp (map (fun i => if Nat.eqb i 9 then None else Some (S i)) (seq 0 n)) (map (fun i => match i with O => None | S j => Some j end) (seq 0 n)) (Some 0%nat) (Some 9%nat) in
+  let marks := [false; true; false; false; false; false; false; false; false; true] in
+  match prun marks s0 [PBreak 4; PSetEnds (Some 4%nat) (Some 3%nat); PReverse; PReverse; PSetEnds (Some 0%nat) (Some 9%nat)] with
+  | POk s => chain_from 20 (p_next s) (Some 0%nat) = [0; 1; 2; 3; 7; 6; 5; 4]%nat /\ chain_from 20 (p_next s) (Some 4%nat) = [4]%nat
+  | _ => False
+  end.
+Proof. vm_compute. split; reflexivity. Qed.
